@@ -141,4 +141,56 @@ p("c03-p-inter-locals", "C03", FA + "epsilon_nfa.py",
 p("c03-p-difference-inline", "C03", FA + "epsilon_nfa.py",
   "        return self.get_intersection(other.get_complement())", "        comp = other.get_complement()\n        res = self.get_intersection(comp)\n        return res")
 
+# ----------------------------------------------------------------------------- C02
+DFAF = FA + "deterministic_finite_automaton.py"
+b("c02-no-minimize-other", "C02", DFAF,
+  "        other_minimal = other.minimize()\n", "        other_minimal = other\n", "walk-args-minimised")
+b("c02-no-determinise-other", "C02", DFAF,
+  "        if not isinstance(other, DeterministicFiniteAutomaton):\n            other_dfa = other.to_deterministic()\n            return self.is_equivalent_to(other_dfa)\n",
+  "", "other-determinised")
+b("c02-walk-ignores-final", "C02", DFAF,
+  "            if (self_minimal.is_final_state(current_self)\n                    and not other_minimal.is_final_state(current_other)) or \\\n                    (not self_minimal.is_final_state(current_self)\n                     and other_minimal.is_final_state(current_other)):\n                return False\n",
+  "", "verdict-depends-on-final")
+b("c02-walk-ignores-symbol", "C02", DFAF,
+  "                if next_symbol_other != next_symbol_self:\n                    return False\n", "", "verdict-depends-on-symbol")
+b("c02-eq-is-identity", "C02", FA + "finite_automaton.py",
+  "    def __eq__(self, other):\n        return self.is_equivalent_to(other)", "    def __eq__(self, other):\n        return self is other",
+  "eq-delegates-to")
+b("c02-partition-one-class", "C02", DFAF,
+  "            if state in self._final_states:\n                finals.append(state)\n            else:\n                non_finals.append(state)",
+  "            non_finals.append(state)", "initial-split-on-final")
+p("c02-p-locals", "C02", DFAF,
+  "        self_minimal = self.minimize()\n        other_minimal = other.minimize()\n        return self._is_equivalent_to_minimal(self_minimal, other_minimal)",
+  "        return self._is_equivalent_to_minimal(self.minimize(), other.minimize())")
+
+# ----------------------------------------------------------------------------- C04
+b("c04-empty-ignores-eps", "C04", FA + "epsilon_nfa.py",
+  "            for state in self._transition_function(current, Epsilon()):\n                if state not in processed:\n                    to_process.append(state)\n                    processed.add(state)\n        return True",
+  "        return True", "is_empty-depends-on-epsilon-edges")
+b("c04-empty-ignores-final", "C04", FA + "epsilon_nfa.py",
+  "            if current in self._final_states:\n                return False\n            for symbol in self._input_symbols:\n                for state in self._transition_function(current, symbol):\n                    if state not in processed:",
+  "            if current in self._states and not self._input_symbols:\n                return False\n            for symbol in self._input_symbols:\n                for state in self._transition_function(current, symbol):\n                    if state not in processed:",
+  "is_empty-depends-on-final")
+b("c04-deterministic-ignores-eclose", "C04", FA + "epsilon_nfa.py",
+  "            and self._transition_function.is_deterministic()\\\n            and all({x} == self.eclose(x) for x in self._states)",
+  "            and self._transition_function.is_deterministic()", "is_deterministic-depends-on-epsilon-closure")
+b("c04-deterministic-ignores-starts", "C04", FA + "nondeterministic_finite_automaton.py",
+  "        return len(self._start_state) <= 1 and \\\n            self._transition_function.is_deterministic()",
+  "        return self._transition_function.is_deterministic()", "is_deterministic-depends-on-number-of-start-states")
+b("c04-acyclic-ignores-eps", "C04", FA + "finite_automaton.py",
+  "            # Epsilon\n            for state in self(current, Epsilon()):\n                to_process.append((state, visited.copy()))\n",
+  "", "is_acyclic-depends-on-epsilon-edges")
+b("c04-words-append-epsilon", "C04", FA + "finite_automaton.py",
+  "                    if symbol != Epsilon():\n                        temp_word.append(symbol)", "                    temp_word.append(symbol)",
+  "epsilon-not-appended")
+b("c04-words-unbounded", "C04", FA + "finite_automaton.py",
+  "            if max_length is not None and len(current_word) > max_length:\n                continue\n", "",
+  "length-bound-guards-expansion")
+b("c04-words-duplicate-yield", "C04", FA + "finite_automaton.py",
+  "                if self.__try_add(yielded_words, word_to_add):\n                    yield current_word",
+  "                yield current_word", "yield-guarded-by-duplicate-set")
+p("c04-p-empty-rename", "C04", FA + "epsilon_nfa.py",
+  "            if current in self._final_states:\n                return False\n            for symbol in self._input_symbols:\n                for state in self._transition_function(current, symbol):\n                    if state not in processed:",
+  "            if self.is_final_state(current):\n                return False\n            for symbol in self._input_symbols:\n                for state in self._transition_function(current, symbol):\n                    if state not in processed:")
+
 VARIANTS = V
